@@ -104,7 +104,7 @@ func runC16(c *core.Ctx) {
 
 	// the handler of a client-side object is dropped only by the function that also forgets
 	// its table entry: a stale entry would later designate another object's (recycled) handler
-	c.Doc("C16.client-remove", "a client-side object's handler is removed only by clientService.Remove, which deletes its table entry", 1)
+	c.Doc("C16.client-remove", "a client-side object's handler is removed only by clientService.Remove, which deletes its table entry in the critical section of the lookup, before removing the handler", 2)
 	{
 		n := 0
 		for _, fn := range srcFuncsOfPkg(c, "bus") {
@@ -127,6 +127,59 @@ func runC16(c *core.Ctx) {
 		}
 		if n == 0 {
 			c.Undecided("C16.client-remove", "bus.clientService", token.NoPos, "no RemoveHandler call found in clientService")
+		}
+		// … and Remove forgets the entry in the exclusive critical section in which it found it,
+		// before the handler is removed: removing the handler runs the object's hook and frees
+		// a slot that is recycled, so an entry that outlives it designates, for a second Remove
+		// of the same id, the handler of whatever object took the slot
+		rmFn := c.Func("bus", "clientService", "Remove")
+		oh := fld(c, "bus", "clientService", "objectsHandlers")
+		st := strct(c, "bus", "clientService")
+		if rmFn != nil && oh != nil && st != nil && len(rmFn.Params) > 1 {
+			if cl, ok := guardOf(c, lc, "bus", st, oh, "objectsMutex"); ok {
+				idp := ssa.Value(rmFn.Params[1])
+				var lk *ssa.Lookup
+				for _, l := range mapLookups(rmFn, oh) {
+					if l.CommaOk && core.Canon(l.Index) == idp {
+						lk = l
+					}
+				}
+				// the critical section may live in a helper handed the id (handler, ok := c.forget(id))
+				secFn, secID := rmFn, idp
+				var viaCall ssa.Instruction
+				if lk == nil {
+					if lh := findLookupHelper(c, rmFn, oh); lh != nil && lh.keyArg() != nil && core.Canon(lh.keyArg()) == idp {
+						lk, secFn, secID = lh.lk, lh.h, core.Canon(lh.lk.Index)
+						viaCall = lh.call
+					}
+				}
+				bad := ""
+				if lk == nil {
+					bad = "Remove does not look the handler up under the id it was given"
+				} else {
+					if held, _ := lc.Get(secFn).HeldAt(lk, cl, true); !held {
+						bad = "the entry is looked up without the exclusive lock: two concurrent Remove calls of one id both find it and both remove the handler id it holds — the second removes whoever was given the recycled slot in between"
+					}
+					var del ssa.Instruction
+					for _, d := range tableOps(c, secFn, oh, 0) {
+						if d.isDel && d.key != nil && core.Canon(d.key) == secID && sameSection(secFn, lk, d.in, cl) {
+							del = d.in
+							if viaCall != nil {
+								del = viaCall
+							}
+						}
+					}
+					if del == nil && bad == "" {
+						bad = "the entry found is not deleted within the critical section of the lookup: a second Remove of the same id finds it again and removes the handler id it holds, which by then may belong to another object (that object is terminated although nobody removed it)"
+					}
+					for _, call := range core.Calls(rmFn) {
+						if _, isRm := epCall(c, call, "RemoveHandler"); isRm && del != nil && bad == "" && !core.Dominates(del, call.(ssa.Instruction)) {
+							bad = "the handler is removed (at " + c.Pos(call.Pos()) + ") before the entry is deleted: the removal runs the object's termination hook and frees the slot while the entry still designates it"
+						}
+					}
+				}
+				c.Check(bad == "", "C16.client-remove", "bus.clientService.Remove/forget-first", rmFn.Pos(), "looked up and deleted in one exclusive critical section, the handler removed afterwards", bad)
+			}
 		}
 	}
 
